@@ -649,7 +649,24 @@ impl<'c> Hist<'c> {
 			}
 		} else {
 			self.log(format!("{} (shape {})", step.name(), shape(&before)));
-			let r = if self.midstep_reads { self.step_with_midstep_reads(db, rep, step)? } else { do_step(db, step) };
+			let r = if self.midstep_reads {
+				self.step_with_midstep_reads(db, rep, step)?
+			} else if self.tree_guards && step == Step::ProcessCommits {
+				// guards are held on this thread: a log worker that WAITS for a tree lock instead of
+				// postponing the dereference can never return here
+				match pv::dbutil::do_step_watched(db, step, std::time::Duration::from_secs(8)) {
+					Ok(r) => r,
+					Err(why) => {
+						rep.count("log_worker_blocked", 1);
+						return fail(
+							"failure=log_worker_blocked_by_tree_lock",
+							format!("process_commits does not return while a tree reader guard is held by the client: the log worker waits for the lock instead of postponing the dereference (nothing behind it in the queue can be logged until the client acts). {}", why),
+						)
+					},
+				}
+			} else {
+				do_step(db, step)
+			};
 			if let Err(e) = r {
 				return fail(format!("failure=step_error;step={}", step.name()), format!("{} returned {}", step.name(), e))
 			}
@@ -832,6 +849,10 @@ impl<'c> Hist<'c> {
 		let mut data = self.rng.bytes(dlen);
 		// unique content so that a node mix-up is visible
 		data.extend_from_slice(&self.tree_nonce.to_le_bytes());
+		if self.rng.chance(1, 14) {
+			// a node without payload (node sizes start at zero)
+			data.clear();
+		}
 		let mut children = vec![];
 		if depth > 0 && *budget > 0 {
 			let fan = match self.rng.below(40) {
